@@ -106,6 +106,8 @@ func checkC13(c c13Case) verdict {
 	var err error
 	var secrets, codes []string
 	var cause string
+	var shortTexts []string
+	var recall func(secret string) error
 	switch c.Kind {
 	case "hotp":
 		h := c.H
@@ -119,6 +121,8 @@ func checkC13(c c13Case) verdict {
 			p = &otp.Param{Digits: otp.Digits(h.Digits), Algorithm: otp.Algorithm(h.Algo), Skew: uint(h.Skew)}
 		}
 		got, err = otp.ValidateHOTP(sub, string(h.Code), h.Counter, p)
+		shortTexts = []string{text, sub}
+		recall = func(sec string) error { _, e := otp.ValidateHOTP(sec, string(h.Code), h.Counter, p); return e }
 		secrets = secretNeedles([]string{text, sub}, h.Key)
 		sup := d >= 1 && d <= 10 && a <= 2
 		if sup && s <= 10 && h.Counter <= ^uint64(0)-s {
@@ -142,6 +146,11 @@ func checkC13(c c13Case) verdict {
 			per = 30
 		}
 		got, err = otp.ValidateTOTP(sub, string(tc.Code), time.Unix(tc.Unix, int64(tc.Nsec)), p)
+		shortTexts = []string{text, sub}
+		recall = func(sec string) error {
+			_, e := otp.ValidateTOTP(sec, string(tc.Code), time.Unix(tc.Unix, int64(tc.Nsec)), p)
+			return e
+		}
 		secrets = secretNeedles([]string{text, sub}, tc.Key)
 		n := uint64(tc.Unix) / per
 		if d >= 1 && d <= 10 && a <= 2 && s <= 10 && n >= s {
@@ -159,6 +168,8 @@ func checkC13(c c13Case) verdict {
 		sub := corrupt(o.Secret, c.Corrupt)
 		in := toLibIn(o.In)
 		got, err = otp.ValidateOCRA(sub, string(o.Code), suite, in)
+		shortTexts = []string{o.Secret, sub}
+		recall = func(sec string) error { _, e := otp.ValidateOCRA(sec, string(o.Code), suite, in); return e }
 		secrets = secretNeedles([]string{o.Secret, sub}, c.OKey)
 		if g, gerr := otp.GenerateOCRA(o.Secret, suite, in); gerr == nil {
 			codes = append(codes, g)
@@ -193,7 +204,59 @@ func checkC13(c c13Case) verdict {
 	if e := leak(err, secrets, codes); e != "" {
 		return bad(true, labels, "%s validation: %s", c.Kind, e)
 	}
+	if e := leakShort(err, shortTexts, recall); e != "" {
+		return bad(true, append(labels, "short-secret"), "%s validation: %s", c.Kind, e)
+	}
 	return ok(!got, labels...)
+}
+
+// leakShort covers secrets shorter than 16 characters. A short text can occur in an error message by coincidence ("ME" in
+// a sentence), so an occurrence is confirmed: the same call is made with another secret of the same shape (every base32
+// letter moved seven places on); the secret is being echoed if that error now contains the OTHER text and no longer
+// the first one.
+func leakShort(err error, texts []string, recall func(string) error) string {
+	if err == nil || recall == nil {
+		return ""
+	}
+	msg := fmt.Sprintf("%v | %+v | %#v", err, err, err)
+	const alpha = "ABCDEFGHIJKLMNOPQRSTUVWXYZ234567"
+	for _, t := range texts {
+		tr := strings.TrimSpace(t)
+		core := strings.TrimRight(tr, "=")
+		if len(core) < 2 || len(tr) >= 16 || !strings.Contains(msg, core) {
+			continue
+		}
+		alt := []byte(t)
+		changed := false
+		for i, ch := range alt {
+			up := ch
+			lower := ch >= 'a' && ch <= 'z'
+			if lower {
+				up = ch - 32
+			}
+			if k := strings.IndexByte(alpha, up); k >= 0 {
+				n := alpha[(k+7)%32]
+				if lower && n >= 'A' && n <= 'Z' {
+					n += 32
+				}
+				alt[i] = n
+				changed = true
+			}
+		}
+		if !changed {
+			continue
+		}
+		altCore := strings.TrimRight(strings.TrimSpace(string(alt)), "=")
+		err2 := recall(string(alt))
+		if err2 == nil {
+			continue
+		}
+		msg2 := fmt.Sprintf("%v | %+v | %#v", err2, err2, err2)
+		if strings.Contains(msg2, altCore) && !strings.Contains(msg2, core) {
+			return fmt.Sprintf("error text %q contains the secret %q; with the secret %q the same call says %q", err.Error(), core, altCore, err2.Error())
+		}
+	}
+	return ""
 }
 
 func causeOf(badSecret, badSkew bool, d, a, codeLen int, accepted bool) string {
